@@ -154,6 +154,8 @@ check("C10", "log damage is contained", [
        "<=2 small entries, every cut offset, every position x every replacement value"),
     ob("VerifC10_DamagedFragmentedTail", "pkg/engine/storage", "log ending in an entry fragmented over three records (33 KB value), cut at every record boundary +-1, behind a header, inside a record: open succeeds, the earlier entry recovered, the large one only if complete and unaltered; then another fragmented entry and a small one written, close, reopen: both there unaltered, the cut entry not back with fabricated bytes",
        "4 record boundaries x 5 cut offsets"),
+    ob("VerifC10_FlipHeaderOfFragment", "pkg/engine/storage", "one byte of the 7-byte header (checksum, length, type) of the FIRST, MIDDLE or LAST record of a fragmented entry (33 KB value) replaced by a symbolic different value: open succeeds, no panic, the entry before it recovered, the fragmented entry exact or absent, the log files are not set aside",
+       "3 records x 7 header bytes; every replacement value, except length bytes: 4 representatives", "every replacement value of every header byte", q={"budget_s": 300}, t={"budget_s": 1200}),
 ], [SIMFS, CLOCK, HASH, LOG, TIERA, "CRC-32 single-byte-error axiom instances are justified by lemmas/crc32_step.smt2 (step injective in state and in byte; discharged on every run) plus a three-line induction over the stream on paper"],
    ["multi-byte damage", "checksum collisions other than single-byte errors (ideal-checksum assumption)"], lemmas=["crc32_step"])
 
